@@ -2179,13 +2179,24 @@ func (b transportResponseBody) Read(p []byte) (n int, err error) {
 	}
 	n, err = b.cs.bufPipe.Read(p)
 	if cs.bytesRemain != -1 {
-		if int64(n) > cs.bytesRemain {
+		if taken := n; int64(n) > cs.bytesRemain {
 			n = int(cs.bytesRemain)
 			if err == nil {
 				err = errors.New("net/http: server replied with more than declared Content-Length; truncated")
 				cs.abortStream(err)
 			}
 			cs.readErr = err
+			// All bytes taken out of the pipe, including the excess that is
+			// not delivered, go back to the connection flow-control window.
+			cc.mu.Lock()
+			connAdd := cc.inflow.add(taken)
+			cc.mu.Unlock()
+			if connAdd != 0 {
+				cc.wmu.Lock()
+				cc.fr.WriteWindowUpdate(0, mustUint31(connAdd))
+				cc.bw.Flush()
+				cc.wmu.Unlock()
+			}
 			return int(cs.bytesRemain), err
 		}
 		cs.bytesRemain -= int64(n)
